@@ -157,7 +157,14 @@ def case_box(spec):
                             probs.append(("box-ancestor-rejected:" + cs_, "box %r: tile %s holds data but its ancestor %s is rejected (filter used for %s)" % (box, p, a, order)))
         if len(probs) > 6:
             break
-    r = dict(counters=dict(box_decisions=n_dec, box_must_accept=n_must), nontrivial=n_must > 0, sample=dict(spec=spec))
+    # the last filter object is also asked from four threads at once: its answers must be the serial ones
+    from vlib import threads
+
+    tl = [tile_and_grid(cs, p)[0] for p in universe[:: 2]]
+    ncalls, bad = threads.concurrent_vs_serial([(lambda t=t: bool(f(t))) for t in tl], lambda a, b: a == b, nthreads=4, rounds=2, seed=spec["seed"], budget_s=2.0)
+    if bad:
+        probs.append(("box-filter-not-reentrant:" + cs, "box %r: %d of %d answers given to concurrent threads differ from the serial answers (first: tile %s)" % (box, len(bad), ncalls, tuple(tl[bad[0][0]].pos))))
+    r = dict(counters=dict(box_decisions=n_dec, box_must_accept=n_must, box_decisions_from_threads=ncalls), nontrivial=n_must > 0, sample=dict(spec=spec))
     return _fin(r, probs)
 
 
@@ -464,9 +471,32 @@ def case_chunks_all(spec, workdir):
     a = os.path.join(workdir, "chunks")
     pio = PyramidIO(a, default_format="npy")
     how = ["one_by_one", "pairs_first", "pairs_first_reversed", "samplers_first"][spec["seed"] % 4]
+    from vlib import sched
+
+    io = dict(n=0, k=0)
+
+    def run_chunk(fl, sm):
+        io["k"] += 1
+        if io["k"] >= 2 and spec["seed"] % 2 == 0 and io["n"] < 2:
+            # a transient I/O error (too many open files) while an existing tile is read back for merging: the run reports
+            # it, the chunk is sampled again, and the layer must be complete
+            import errno
+
+            sched.failpoint("image.py", "load_path", OSError(errno.EMFILE, "Too many open files (injected)"), skip=R.randrange(0, 3), count=1)
+            try:
+                toast.sample_layer_filtered(pio, fl, sm, D, coordsys=CS.PLANETARY, parallel=1)
+            except OSError:
+                io["n"] += 1
+                sched.clear_failpoints()
+                toast.sample_layer_filtered(pio, fl, sm, D, coordsys=CS.PLANETARY, parallel=1)
+            finally:
+                sched.clear_failpoints()
+            return
+        toast.sample_layer_filtered(pio, fl, sm, D, coordsys=CS.PLANETARY, parallel=1)
+
     if how == "one_by_one":
         for i in range(fc.n_chunks):
-            toast.sample_layer_filtered(pio, ck.filter(i), ck.sampler(i), D, coordsys=CS.PLANETARY, parallel=1)
+            run_chunk(ck.filter(i), ck.sampler(i))
     else:
         # every (filter, sampler) pair is requested up front and used afterwards (in order or reversed)
         if how == "samplers_first":
@@ -477,7 +507,8 @@ def case_chunks_all(spec, workdir):
         if how == "pairs_first_reversed":
             pairs.reverse()
         for fl, sm in pairs:
-            toast.sample_layer_filtered(pio, fl, sm, D, coordsys=CS.PLANETARY, parallel=1)
+            run_chunk(fl, sm)
+    n_io = io["n"]
     g = samplers.plate_carree_planet_sampler(idmap)
     probs = []
     n = ties = 0
@@ -505,7 +536,7 @@ def case_chunks_all(spec, workdir):
             if bad.any():
                 yy, xx = np.argwhere(bad)[0]
                 probs.append(("chunks-differ", "tile %s: %d pixels differ from whole-map sampling (first row %d col %d: chunks %d, whole map %d)" % (p, int(bad.sum()), yy, xx, got[yy, xx], ref[yy, xx])))
-    r = dict(counters=dict(chunk_sampling_comparisons=1, chunk_sampling_tiles=n, boundary_ties_accepted=ties), nontrivial=True, sample=dict(spec=spec, map=[H, W], chunk=[cw, ch]))
+    r = dict(counters=dict(chunk_sampling_comparisons=1, chunk_sampling_tiles=n, boundary_ties_accepted=ties, chunk_read_errors_reported=n_io), nontrivial=True, sample=dict(spec=spec, map=[H, W], chunk=[cw, ch]))
     return _fin(r, probs)
 
 
